@@ -77,6 +77,16 @@ check("C01", "exploration",
       "V8 (node 20) is the reference engine; observation excludes function/regexp source text, .name/.length and error messages; programs whose original fails to compile or hits TDZ, direct eval and Annex-B block functions are out of the domain; sizes beyond the family bounds are not covered.",
       "bounded exhaustive program enumeration with differential execution on an independent engine", "DESIGN.md#c01", engine="jsrun")
 
+check("C03", "exploration",
+      "Conforming documents and fragments are enumerated by neighbourhood: optional-tag contexts (parent, left sibling, optional white space, right sibling; thorough triples) over one representative element per class of html/table.go, white-space placement over every inline/block/atomic/transparent pair, attribute values (every string of <=3/4 symbols over quotes, =, <, >, backtick, white space, ampersands and character references under the three quoting styles on one attribute of each kind, plus the special cases coded in html.go), raw-text and escapable-raw-text bodies, text with character references, template delimiters, comments; each under 9 option sets with an HTML-only registry. Input and output are parsed by golang.org/x/net/html and compared after exactly the documented allowances: comments removed, same element structure, attributes equal per attribute kind from an own table, text by rendering equivalence under white-space:normal (words never joined or split), raw text byte-equal.",
+      "Trusts x/net/html as the HTML5 parser and the oracle's own element/attribute classification written from the HTML Standard; CSS that changes display and scripting-disabled parsing of noscript are outside.",
+      "bounded exhaustive document enumeration vs independent HTML5 parser and rendering-equivalence normal form", "DESIGN.md#c03")
+
+check("C04", "exploration",
+      "Stylesheets and inline declaration lists are enumerated exhaustively per family: structure (rule lists, at-rule preludes, selectors in mixed case with attribute selectors and pseudo-classes, declaration lists with errors) and, for each property branch of minifyProperty (margin/padding/border*/outline/background*/font*/flex*/box-shadow/text-*/colour properties/unicode-range), every sequence of <=3/4 components over the property's own value alphabet restricted to valid values, plus token families (numbers and dimensions in every notation with every unit inside and outside functions, rgb/hsl grids, hex colours, colour keywords, strings, URLs); KeepCSS2 off/on, stylesheet and inline mode. An own CSS Syntax 3 tokenizer/parser/value interpreter compares meaning: exact rationals and units, sRGB+alpha, shorthand expansion to longhands with initial values, code-point sets, strings/URLs, token streams for everything else.",
+      "Trusts the own cssval oracle (tokenizer, grammars, colour table, initial values from the cited specifications); properties without a grammar are compared by token identity.",
+      "bounded exhaustive stylesheet enumeration vs independent CSS value interpreter", "DESIGN.md#c04")
+
 ALL = ["C%02d" % i for i in range(1, 21)]
 NOT_YET = {p: "check not built yet in this revision (planned, see DESIGN.md section 4); not claimed until its command exists" for p in ALL if p not in CHECKS}
 
